@@ -61,6 +61,8 @@ DRV = os.environ.get('VERIF_C18_DRV', 'virtdrv')      # (a differently built dri
 KNOWN_SIG = 'repartition-trailing-empty-oob'
 EMPTY_SIG = 'partition-empty-range-wrong-type'
 LONG_SIG = 'virtual-declared-length-longer-accepted'
+BITMASK_SIG = 'virtual-lazy-slice-bitmasked-form-mismatch'
+STRSORT_SIG = 'virtual-lazy-carry-hides-array-parameter'
 
 
 # ------------------------------------------------------------------------------------------------ build
@@ -262,8 +264,8 @@ def gen_virt(rng, i):
             st.append('quiet')
         if on is not None:
             st += ['on', on]
-        if op[0] in ARRAY_OPS:
-            arr_steps.append(k)
+        if op[0] in ARRAY_OPS and op[0] not in ('carry', 'lazycarry'):
+            arr_steps.append(k)      # (results of the internal carry are not operated on: ix-over-record vs record)
         steps.append(st + op)
     line = '(v%d virt (layout %s) (wrap %s) (gen %s) (cache %s) (declare %s) (ops %s))' % (
         i, G.sx(lay), ' '.join(G.sx(list(p)) for p, _ in wraps), ' '.join(G.sx(s) for s in scripts),
@@ -839,15 +841,23 @@ def run(cases, tier, rng):
                     break
                 if lying or mstat == 'err' or not e_ok:
                     if not e_ok and v_ok and mstat != 'err' and not lying:
+                        if v[2] == 'lazy':
+                            bump('deferred-error')       # a lazy result: the error belongs to its materialisation
+                            continue
+                        sig = None
+                        opname = [x for x in st_in if x not in ('quiet', 'on') and not isinstance(x, int)][0]
+                        if opname in ('sort', 'argsort') and ('(par string' in line or '(par bytestring' in line):
+                            sig = STRSORT_SIG
                         bump('viol')
                         add('viol', 'step %d %s: the eager array raises, the virtual array answers' % (k, unparse(st_in)),
-                            c, [line, '# driver: ' + r[:1500]], obl='corr:virtual==eager')
+                            c, [line, '# driver: ' + r[:1500]], sig, obl='corr:virtual==eager')
                         break
                     continue
                 if not v_ok:
+                    sig = BITMASK_SIG if ('(bim ' in line and v[2] == 'value') else None
                     bump('viol')
                     add('viol', 'step %d %s: the eager array answers, the virtual array raises (%s) although every generation succeeded' %
-                        (k, unparse(st_in), v[2]), c, [line, '# driver: ' + r[:1500], '# model: ' + mr[:800]],
+                        (k, unparse(st_in), v[2]), c, [line, '# driver: ' + r[:1500], '# model: ' + mr[:800]], sig,
                         obl='corr:virtual==eager')
                     break
                 nok += 1
